@@ -170,6 +170,17 @@ def Cfg.load (c : Cfg) (s : Slot) (data : KVs) : Except CErr Cfg :=
   | .error e => .error e
   | .ok _ => .ok c'
 
+/-- `load_*(data, merge=False)`: the level is replaced, nothing is re-merged - readers keep seeing the
+    old cache until the next `merge()` (the driver shows the frozen view meanwhile); everything computed
+    from the SLOTS, like `clone`, already uses the new level -/
+def Cfg.loadUnmerged (c : Cfg) (s : Slot) (data : KVs) : Cfg := c.set s data
+
+/-- `Config.merge()` on its own -/
+def Cfg.remerge (c : Cfg) : Except CErr Cfg :=
+  match c.view with
+  | .error e => .error e
+  | .ok _ => .ok c
+
 /-! ## Shell environment (`load_shell_env`), for keys without underscores -/
 
 def upperKey (k : Key) : Key := k.map Char.toUpper
